@@ -674,6 +674,8 @@ class Proto:
             e = fn.expr_of_rvalue(rv)
             if e[0] == 'agg' and e[2] == 'core::option::Option::Some':
                 st = st._replace(act=st.act | 4)     # this poll registered the current task's waker
+                if record:
+                    self.events[('waker_store', self._evn(fn), '')].add(st.T)
         if pl['p']:
             # writes through other places: a tracked local may be overwritten via a reference; keep it simple:
             l = self._root_local(fn, pl)
